@@ -746,6 +746,8 @@ impl LevelFilter {
 
         // using an AcqRel swap ensures an ordered relationship of writes to the
         // max level.
+        #[cfg(all(tracing_verif, feature = "std"))]
+        crate::__verif::yield_point(50);
         MAX_LEVEL.swap(val, Ordering::AcqRel);
     }
 }
